@@ -78,3 +78,12 @@ Theorem c11_prev_refines_searched : forall z t, zone_ok z = true -> int64 t ->
 Proof. exact prev_refines_lemma. Qed.
 Print Assumptions c11_prev_refines_searched.
 
+
+(* After the C11 fix, EquivTransitions (eqv_types) is exactly observational equality: two types
+   are equivalent iff they designate the same offset, DST flag and abbreviation TEXT, whatever
+   their abbreviation indices. *)
+Theorem c11_equivalence_is_observable : forall z a b,
+  zone_ok z = true -> idx_ok z a = true -> idx_ok z b = true ->
+  (eqv_types z a b = true <-> off_of z a = off_of z b /\ info_of z a = info_of z b).
+Proof. exact eqv_types_iff_same_info. Qed.
+Print Assumptions c11_equivalence_is_observable.
